@@ -118,13 +118,17 @@ ResolveAgainst(ps, new, k, prefix) ==
     IF o.name = new.name \/ o.py # new.py THEN ResolveAgainst(ps, new, k + 1, prefix)
     ELSE LET npy == PyId(new.name, prefix, TRUE)
              opy == PyId(o.name, prefix, TRUE)
-         IN IF npy = opy THEN [ps |-> ps, new |-> new, err |-> TRUE]
+         IN IF npy = opy THEN [ps |-> [ps EXCEPT ![k].py = opy], new |-> [new EXCEPT !.py = npy], err |-> TRUE]  \* both were renamed in place before the error
             ELSE ResolveAgainst([ps EXCEPT ![k].py = opy], [new EXCEPT !.py = npy], k + 1, prefix)
 
 AttrAdd(ps, name, prefix) ==
   LET new == [name |-> name, py |-> PyId(name, prefix, FALSE)]
       r == ResolveAgainst(ps, new, 1, prefix)
-  IN IF r.err THEN [ps |-> ps, err |-> TRUE]
+      others == SelectSeq(r.ps, LAMBDA o : o.name # name)
+      \* after the loop: python names of the other properties and of the new one must be pairwise distinct
+      clash == \/ \E a \in 1..Len(others) : others[a].py = r.new.py
+               \/ \E a, b \in 1..Len(others) : a # b /\ others[a].py = others[b].py
+  IN IF r.err \/ clash THEN [ps |-> r.ps, err |-> TRUE]      \* r.ps: the shared property objects keep their new names
      ELSE IF \E k \in 1..Len(r.ps) : r.ps[k].name = name
           THEN [ps |-> [k \in 1..Len(r.ps) |-> IF r.ps[k].name = name THEN r.new ELSE r.ps[k]], err |-> FALSE]
           ELSE [ps |-> Append(r.ps, r.new), err |-> FALSE]
